@@ -205,25 +205,25 @@ package main
 //@ define row(b, from) = TerraformType{Type: ite(ismap, T + ".MapType", ite(rep, T + ".ListType", b.Type)), ValueType: ite(ismap, T + ".Map", ite(rep, T + ".List", b.ValueType)), ElemType: b.ElemType, ElemValueType: b.ElemValueType, IsTypeScalar: b.IsTypeScalar, IsElemTypeScalar: b.IsElemTypeScalar, ValueCastToType: b.ValueCastToType, ValueCastFromType: ite(isCast, elem, from), ZeroValue: b.ZeroValue, IsMessage: b.IsMessage, TypeConstructor: b.TypeConstructor}
 //@ ensures [C18] imp(isT && c.config.TimeType == nil, result1 != nil)
 //@ ensures [C18] imp(!isT && isD && c.config.DurationType == nil, result1 != nil)
-//@ ensures [C02,C19,C20] imp(isT && c.config.TimeType != nil, result1 == nil && same(result0, row(userT(*c.config.TimeType), c.config.TimeType.CastFromType)))
-//@ ensures [C02,C19,C20] imp(!isT && isD && c.config.DurationType != nil, result1 == nil && same(result0, row(userT(*c.config.DurationType), c.config.DurationType.CastFromType)))
-//@ ensures [C02,C19,C20,C18] imp(!isT && !isD && ty == descriptor.FieldDescriptorProto_TYPE_DOUBLE, result1 == nil && same(result0, row(tFloat64, "float64")))
-//@ ensures [C02,C19,C20,C18] imp(!isT && !isD && ty == descriptor.FieldDescriptorProto_TYPE_FLOAT, result1 == nil && same(result0, row(tFloat64, "float32")))
-//@ ensures [C02,C19,C20,C18] imp(!isT && !isD && ty == descriptor.FieldDescriptorProto_TYPE_INT64, result1 == nil && same(result0, row(tInt64, "int64")))
-//@ ensures [C02,C19,C20,C18] imp(!isT && !isD && ty == descriptor.FieldDescriptorProto_TYPE_UINT64, result1 == nil && same(result0, row(tInt64, "uint64")))
-//@ ensures [C02,C19,C20,C18] imp(!isT && !isD && ty == descriptor.FieldDescriptorProto_TYPE_INT32, result1 == nil && same(result0, row(tInt64, "int32")))
-//@ ensures [C02,C19,C20,C18] imp(!isT && !isD && ty == descriptor.FieldDescriptorProto_TYPE_UINT32, result1 == nil && same(result0, row(tInt64, "uint32")))
-//@ ensures [C02,C19,C20,C18] imp(!isT && !isD && ty == descriptor.FieldDescriptorProto_TYPE_FIXED64, result1 == nil && same(result0, row(tInt64, "uint64")))
-//@ ensures [C02,C19,C20,C18] imp(!isT && !isD && ty == descriptor.FieldDescriptorProto_TYPE_FIXED32, result1 == nil && same(result0, row(tInt64, "uint32")))
-//@ ensures [C02,C19,C20,C18] imp(!isT && !isD && ty == descriptor.FieldDescriptorProto_TYPE_SFIXED32, result1 == nil && same(result0, row(tInt64, "int32")))
-//@ ensures [C02,C19,C20,C18] imp(!isT && !isD && ty == descriptor.FieldDescriptorProto_TYPE_SFIXED64, result1 == nil && same(result0, row(tInt64, "int64")))
-//@ ensures [C02,C19,C20,C18] imp(!isT && !isD && ty == descriptor.FieldDescriptorProto_TYPE_SINT32, result1 == nil && same(result0, row(tInt64, "int32")))
-//@ ensures [C02,C19,C20,C18] imp(!isT && !isD && ty == descriptor.FieldDescriptorProto_TYPE_SINT64, result1 == nil && same(result0, row(tInt64, "int64")))
-//@ ensures [C02,C19,C20,C18] imp(!isT && !isD && ty == descriptor.FieldDescriptorProto_TYPE_BOOL, result1 == nil && same(result0, row(tBool, "bool")))
-//@ ensures [C02,C19,C20,C18] imp(!isT && !isD && ty == descriptor.FieldDescriptorProto_TYPE_STRING, result1 == nil && same(result0, row(tString, "string")))
-//@ ensures [C02,C19,C20,C18] imp(!isT && !isD && ty == descriptor.FieldDescriptorProto_TYPE_BYTES, result1 == nil && same(result0, row(tString, "[]byte")))
-//@ ensures [C02,C19,C20,C18] imp(!isT && !isD && ty == descriptor.FieldDescriptorProto_TYPE_ENUM, result1 == nil && same(result0, row(tInt64, elem)))
-//@ ensures [C02,C19,C20,C18] imp(!isT && !isD && ty == descriptor.FieldDescriptorProto_TYPE_MESSAGE, result1 == nil && same(result0, row(tObject, "")))
+//@ ensures [C02,C13,C19,C20] imp(isT && c.config.TimeType != nil, result1 == nil && same(result0, row(userT(*c.config.TimeType), c.config.TimeType.CastFromType)))
+//@ ensures [C02,C13,C19,C20] imp(!isT && isD && c.config.DurationType != nil, result1 == nil && same(result0, row(userT(*c.config.DurationType), c.config.DurationType.CastFromType)))
+//@ ensures [C02,C13,C19,C20,C18] imp(!isT && !isD && ty == descriptor.FieldDescriptorProto_TYPE_DOUBLE, result1 == nil && same(result0, row(tFloat64, "float64")))
+//@ ensures [C02,C13,C19,C20,C18] imp(!isT && !isD && ty == descriptor.FieldDescriptorProto_TYPE_FLOAT, result1 == nil && same(result0, row(tFloat64, "float32")))
+//@ ensures [C02,C13,C19,C20,C18] imp(!isT && !isD && ty == descriptor.FieldDescriptorProto_TYPE_INT64, result1 == nil && same(result0, row(tInt64, "int64")))
+//@ ensures [C02,C13,C19,C20,C18] imp(!isT && !isD && ty == descriptor.FieldDescriptorProto_TYPE_UINT64, result1 == nil && same(result0, row(tInt64, "uint64")))
+//@ ensures [C02,C13,C19,C20,C18] imp(!isT && !isD && ty == descriptor.FieldDescriptorProto_TYPE_INT32, result1 == nil && same(result0, row(tInt64, "int32")))
+//@ ensures [C02,C13,C19,C20,C18] imp(!isT && !isD && ty == descriptor.FieldDescriptorProto_TYPE_UINT32, result1 == nil && same(result0, row(tInt64, "uint32")))
+//@ ensures [C02,C13,C19,C20,C18] imp(!isT && !isD && ty == descriptor.FieldDescriptorProto_TYPE_FIXED64, result1 == nil && same(result0, row(tInt64, "uint64")))
+//@ ensures [C02,C13,C19,C20,C18] imp(!isT && !isD && ty == descriptor.FieldDescriptorProto_TYPE_FIXED32, result1 == nil && same(result0, row(tInt64, "uint32")))
+//@ ensures [C02,C13,C19,C20,C18] imp(!isT && !isD && ty == descriptor.FieldDescriptorProto_TYPE_SFIXED32, result1 == nil && same(result0, row(tInt64, "int32")))
+//@ ensures [C02,C13,C19,C20,C18] imp(!isT && !isD && ty == descriptor.FieldDescriptorProto_TYPE_SFIXED64, result1 == nil && same(result0, row(tInt64, "int64")))
+//@ ensures [C02,C13,C19,C20,C18] imp(!isT && !isD && ty == descriptor.FieldDescriptorProto_TYPE_SINT32, result1 == nil && same(result0, row(tInt64, "int32")))
+//@ ensures [C02,C13,C19,C20,C18] imp(!isT && !isD && ty == descriptor.FieldDescriptorProto_TYPE_SINT64, result1 == nil && same(result0, row(tInt64, "int64")))
+//@ ensures [C02,C13,C19,C20,C18] imp(!isT && !isD && ty == descriptor.FieldDescriptorProto_TYPE_BOOL, result1 == nil && same(result0, row(tBool, "bool")))
+//@ ensures [C02,C13,C19,C20,C18] imp(!isT && !isD && ty == descriptor.FieldDescriptorProto_TYPE_STRING, result1 == nil && same(result0, row(tString, "string")))
+//@ ensures [C02,C13,C19,C20,C18] imp(!isT && !isD && ty == descriptor.FieldDescriptorProto_TYPE_BYTES, result1 == nil && same(result0, row(tString, "[]byte")))
+//@ ensures [C02,C13,C19,C20,C18] imp(!isT && !isD && ty == descriptor.FieldDescriptorProto_TYPE_ENUM, result1 == nil && same(result0, row(tInt64, elem)))
+//@ ensures [C02,C13,C19,C20,C18] imp(!isT && !isD && ty == descriptor.FieldDescriptorProto_TYPE_MESSAGE, result1 == nil && same(result0, row(tObject, "")))
 //@ ensures [C18] imp(!isT && !isD && ty == descriptor.FieldDescriptorProto_TYPE_GROUP, result1 != nil)
 
 // ===================================================================== CopyFrom, emitted code
